@@ -5,8 +5,11 @@ Starts a real gunicorn (sync worker, unix socket) whose application echoes its
 environ, sends one request with repeated fields and compares what the
 application saw with what was sent.
 """
+import os as _os
+_TREE_UNDER_TEST = _os.environ.get("GVERIF_REPO") or _os.getcwd()   # the checkout under test (was the auditing agent's scratch worktree)
+
 import sys
-sys.path.insert(0, "/tmp/wa_C15")
+sys.path.insert(0, _TREE_UNDER_TEST)
 
 import json
 import os
@@ -17,7 +20,7 @@ import subprocess
 import tempfile
 import time
 
-ROOT = "/tmp/wa_C15"
+ROOT = _TREE_UNDER_TEST
 
 APP = '''
 import json, gunicorn
